@@ -167,6 +167,13 @@ def satdisk(chk, mini=False):
             b = random.Random(chk.seed).sample(b, 500)         # every behaviour in the thorough tier
         beh += b
         r.prints = []
+    if not mini:
+        # the core state space without the history (TLC VIEW): every reachable target state and every kind of transition,
+        # for histories of any length - the state invariants and action properties hold unboundedly at design level
+        ru = tlc.run("SatDisk", "MC_SatDisk_unbounded.cfg", workers=8, timeout=2400, name="c13ub")
+        if not ru.ok:
+            raise tlc.TLCFailure("SatDisk.tla (unbounded, VIEW) violated %s\n%s" % (ru.violated, ru.counterexample[:1500]))
+        ev.tlc("SatDisk/MC_SatDisk_unbounded.cfg (core states under VIEW, histories of any length)", ru)
     for cfg in (() if mini else ("Sim_SatDisk_iscsi.cfg", "Sim_SatDisk_sgio.cfg")):
         rs = tlc.run("SatDisk", cfg, workers=1, timeout=1800, name="c13satsim", simulate="num=%d" % (40 if chk.quick else 3000),
                      extra=["-depth", "40", "-seed", str(chk.seed + 29)])
